@@ -37,6 +37,9 @@ func New2DFilled[T any](width, height int, value T) Array2D[T] {
 func New2DFromJagged[J ~[]S, S ~[]E, E any](width, height int, jagged J) Array2D[E] {
 	arr := New2D[E](width, height)
 	for y, row := range jagged {
+		if y >= height {
+			break
+		}
 		copy(arr.Row(y), row)
 	}
 	return arr
